@@ -156,7 +156,8 @@ class C08(Prop):
         "char_classes_regenerated", "guess_probe_regenerated", "sq_guess_counts_all", "sq_copy_spec", "match_uniform",
         "fetch_from_msa_modes_agree", "strdealign_spec", "std_gapchars_ok", "get_from_msa_ss_buffer_safe",
         "sq_grow_covers", "sq_growto_covers", "sq_object_grow_keeps_invariant", "sq_object_digitize_textize", "sq_revcomp_markup",
-        "sq_object_copy_spec",
+        "sq_object_copy_spec", "std_case_insensitive", "custom_history_case_insensitive", "custom_history_wfdegen",
+        "sq_checksum_detects_substitution", "sq_checksum_steps_injective",
     )]
     claimed = True
     technique = ("Lean 4 proof: table theorems closed by `decide` over the whole regenerated tables (vs a hand-written IUPAC statement), "
